@@ -101,6 +101,25 @@ def check_stress(ctx):
             return
 
 
+def check_fresh(ctx, more=False):
+    """the first Emit calls of a fresh Emitting under contention (whatever Emit sets up lazily)"""
+    trials = (8000 if ctx.tier == "quick" else 100000) * (5 if more else 1)
+    for g in (2, 3):
+        rc, out = ctx.vh("vh-api", ["emit-fresh", str(trials), str(g)], timeout=900)
+        try:
+            o = json.loads(out.strip().split("\n")[-1])
+        except Exception:
+            ctx.broken.append("emit-fresh failed: " + out[-300:])
+            return
+        ctx.count_case(("emit-fresh", trials, g), True, "emit-fresh")
+        ctx.cov.setdefault("fresh_emitters", {})[str(g)] = o
+        if o["bad"]:
+            ctx.violation({"kind": "emit-fresh", "args": [trials, g], "observed": o,
+                           "explanation": "a fresh Emitting whose first Emit calls overlap: every trial must deliver one item per goroutine with the indices 0..g-1",
+                           "how": "vh-api emit-fresh %d %d" % (trials, g)})
+            return
+
+
 def check_multi(ctx):
     """several streams sharing one AppStats, with a concurrent statistics dump"""
     ns, g, per, nd = (6, 2, 8000, 300) if ctx.tier == "quick" else (8, 2, 100000, 3000)
@@ -132,11 +151,13 @@ def run(ctx):
     check_sched(ctx, base_ok)
     check_stress(ctx)
     check_multi(ctx)
+    check_fresh(ctx, more="Api/EmitTie.v" in failed)
     if "Api/EmitTie.v" in failed and not ctx.violations:
         # the source's Emit is no longer the atom sequence the theorem is about: show the model's
-        # witness when the lock is gone
+        # witness when the lock is simply gone (with statements the translator does not know, the
+        # broken tie is reported as such)
         src = open(vlib.COQ + "/gen/EmitSrc.v").read()
-        if "ELock" not in src or "EUnlock" not in src:
+        if ("ELock" not in src or "EUnlock" not in src) and "EUnknown" not in src:
             ctx.violation({"kind": "model-schedule", "gen": src,
                            "schedule_thread_ids": [0, 0, 0, 1, 1, 1, 0, 0, 0, 1, 1, 1],
                            "explanation": "Emit as found in the source takes no lock around GetIndex/IncrementItemCount; in the model "
@@ -148,7 +169,8 @@ def run(ctx):
     ]
     return ctx.finish(
         rule="every schedule of the real Emit under the deterministic scheduler for the listed (emitters x emits) configurations "
-             "(distinct = distinct model schedule, all non-trivial: at least two emitters), plus free-running stress runs",
+             "(distinct = distinct model schedule, all non-trivial: at least two emitters), plus free-running stress runs, several streams on one AppStats "
+             "and the first Emit calls of fresh emitters released together",
         assumptions=["both goroutines of a stream share one api.Emitting", "TcpStream.GetIndex/IncrementItemCount individually atomic"])
 
 
